@@ -186,7 +186,11 @@ def hEpoch : Handler := fun j => do
     let a ← parsePop afterJ
     let sortedIds ← arrInt (← fld out "sortedIds")
     let bestId ← fldInt out "bestSpeciesId"
+    -- twin run through the public entry point NextEpoch (harness: half of the cases); "differs..." = the three co-simulated
+    -- phases are not what NextEpoch does
+    let twin := (fldStr out "twin").toOption.getD "skipped"
     let (corr, detail) : Bool × String :=
+      if twin.startsWith "differs" then (false, "twin run through the public NextEpoch " ++ twin) else
       match m1 with
         | .error e => (false, s!"model prepare stops: {stopStr e}")
         | .ok ((p1, ex), rs1) =>
